@@ -202,4 +202,104 @@ example :
       sp.overrunsBefore 3 = 2 := by
   decide
 
+/-- The executed order does not depend on the sorting algorithm. -/
+theorem c06_order_unique (ready l : List Ready) (hp : l.Perm ready)
+    (hs : l.Pairwise (fun a b => keyLe a b = true)) : l = order ready :=
+  List.Perm.eq_of_pairwise (le := fun a b => keyLe a b = true)
+    (fun a b _ _ h1 h2 => keyLe_antisymm a b h1 h2) hs (c06_exec_sorted ready)
+    (hp.trans (c06_exec_perm ready).symm)
+
+/-- Reading of the sort key in the words of the property. -/
+theorem c06_order_reading (ready : List Ready) :
+    (order ready).Pairwise (fun a b =>
+      a.priority < b.priority ∨
+      (a.priority = b.priority ∧ (a.dueAt < b.dueAt ∨ (a.dueAt = b.dueAt ∧ a.index ≤ b.index)))) := by
+  refine (c06_exec_sorted ready).imp ?_
+  intro a b h
+  unfold keyLe at h
+  simpa only [Bool.or_eq_true, Bool.and_eq_true, decide_eq_true_eq, beq_iff_eq] using h
+
+/-- Sum of the missed activations detected in cycles `0 .. k-1`. -/
+def Spec.missedSum (sp : Spec) : Nat → Nat
+  | 0 => 0
+  | k + 1 => sp.missedSum k + sp.missedAt k
+
+theorem c06_overruns_closed_form (sp : Spec) (k : Nat) :
+    sp.overrunsBefore k = min (sp.missedSum k) u64Max := by
+  induction k with
+  | zero => simp [Spec.overrunsBefore, Spec.missedSum]
+  | succ k ih =>
+    simp only [Spec.overrunsBefore, Spec.missedSum, ih]
+    omega
+
+/-- `lastP k` is the clock of the latest periodic activation before cycle `k`. -/
+theorem c06_lastP_latest (sp : Spec) (k : Nat) :
+    (∃ j, j < k ∧ sp.periodicAt j = true ∧ sp.lastP k = sp.t j ∧
+        ∀ i, j < i → i < k → sp.periodicAt i = false) ∨
+    ((∀ j, j < k → sp.periodicAt j = false) ∧ sp.lastP k = sp.t0) := by
+  induction k with
+  | zero => right; exact ⟨fun j h => absurd h (Nat.not_lt_zero j), rfl⟩
+  | succ k ih =>
+    by_cases hp : sp.periodicAt k = true
+    · left
+      refine ⟨k, Nat.lt_succ_self k, hp, ?_, fun i h1 h2 => by omega⟩
+      have : (decide (sp.iv > 0) && !sp.s k && decide (sp.t k - sp.lastP k ≥ sp.iv)) = true := hp
+      simp only [Spec.lastP, this, if_true]
+    · have hp' : sp.periodicAt k = false := by simpa using hp
+      have hl : sp.lastP (k + 1) = sp.lastP k := by
+        have : (decide (sp.iv > 0) && !sp.s k && decide (sp.t k - sp.lastP k ≥ sp.iv)) = false := hp'
+        simp only [Spec.lastP, this]; simp
+      rcases ih with ⟨j, hj, hpj, hlj, hno⟩ | ⟨hno, hl0⟩
+      · left
+        refine ⟨j, by omega, hpj, by rw [hl, hlj], ?_⟩
+        intro i h1 h2
+        by_cases hik : i = k
+        · subst hik; exact hp'
+        · exact hno i h1 (by omega)
+      · right
+        refine ⟨?_, by rw [hl, hl0]⟩
+        intro j hj
+        by_cases hjk : j = k
+        · subst hjk; exact hp'
+        · exact hno j (by omega)
+
+/-- The number of missed activations: whole intervals elapsed minus the one that is run now. -/
+theorem c06_missed_formula (sp : Spec) (k : Nat) (hp : sp.periodicAt k = true) :
+    (sp.missedAt k : Int) = (sp.t k - sp.lastP k) / sp.iv - 1 := by
+  have h : (decide (sp.iv > 0) && !sp.s k && decide (sp.t k - sp.lastP k ≥ sp.iv)) = true := hp
+  simp only [Bool.and_eq_true, decide_eq_true_eq] at h
+  obtain ⟨⟨hiv, _⟩, hge⟩ := h
+  have h1 : (sp.t k - sp.lastP k) / sp.iv ≥ 1 := by
+    have := Int.ediv_le_ediv hiv hge
+    rwa [Int.ediv_self (by omega)] at this
+  simp only [Spec.missedAt, hp, if_true]
+  split <;> omega
+
+/-- The whole-cycle task sequence is determined by the due set alone. -/
+theorem c06_cycle_tasks_unique (tasks : List Task) (n : Nat) (sts : List TState) (sv : Nat → Bool)
+    (now : Int) (l : List Ready) (hp : l.Perm (collect tasks sts sv now).2)
+    (hs : l.Pairwise (fun a b => keyLe a b = true)) :
+    (cycle tasks n sts sv now).2.tasks = l.map (·.index) := by
+  rw [c06_order_unique _ l hp hs]; rfl
+
+/-- Missed activations are counted, not replayed: after a periodic activation in cycle `k` the
+next periodic activation needs a full interval from the clock of cycle `k`, however far the
+clock had jumped before. -/
+theorem c06_not_replayed (sp : Spec) (k : Nat) (h1 : sp.periodicAt k = true)
+    (h2 : sp.periodicAt (k + 1) = true) : sp.t (k + 1) - sp.t k ≥ sp.iv := by
+  have h1' : (decide (sp.iv > 0) && !sp.s k && decide (sp.t k - sp.lastP k ≥ sp.iv)) = true := h1
+  have hl : sp.lastP (k + 1) = sp.t k := by simp only [Spec.lastP, h1', if_true]
+  have h2' : (decide (sp.iv > 0) && !sp.s (k + 1) &&
+      decide (sp.t (k + 1) - sp.lastP (k + 1) ≥ sp.iv)) = true := h2
+  rw [hl] at h2'
+  simp only [Bool.and_eq_true, decide_eq_true_eq] at h2'
+  exact h2'.2
+
+/-- Non-vacuity of `c06_order_unique` / `c06_order_reading`: equal priorities are ordered by due
+time, equal due times by declaration index, whatever the order of the ready list. -/
+example :
+    (order [⟨2, 5, 1⟩, ⟨0, 7, 1⟩, ⟨1, 5, 1⟩, ⟨3, 9, 0⟩]).map (·.index) = [3, 1, 2, 0] := by
+  rw [← c06_order_unique _ [⟨3, 9, 0⟩, ⟨1, 5, 1⟩, ⟨2, 5, 1⟩, ⟨0, 7, 1⟩] (by decide) (by decide)]
+  rfl
+
 end TrustVerif.C06
